@@ -3,6 +3,7 @@
 \* injected fault, no crash, <= 2 clean restarts at any point, <= 2 emits of events whose writer fails (before /
 \* after partial output) at any point; the clock stays in its period.  Replayed on the REAL FileSet over the REAL
 \* filesystem, system clock and rng (harness c10_file_prod), decided by FileSetTrace.tla.
+\* separator {"\n", "\r\n"} x the writer ends its output with {the separator, nothing, only the last byte of a multi-byte separator, only its first byte}
 SPECIFICATION Spec
 CONSTANTS
     EvSize <- MC_EvSize
@@ -18,6 +19,8 @@ CONSTANTS
     MaxReopens = 2
     MaxFmtFail = 2
     FmtFails = {"empty", "partial"}
+    SepForms = {"nl", "crlf"}
+    WriterEnds = {"sep", "none", "last", "first"}
     Ticks = {"same"}
     RetryTicks = {"same"}
     Phantoms = {0}
@@ -26,7 +29,7 @@ CONSTANTS
     MaxMs = 2
     Emit = TRUE
 VIEW view
-INVARIANTS Durable RecordsWellFormed RetryIsWhole AckOnlyAfterSync NoGarbage
+INVARIANTS Durable RecordsWellFormed RetryIsWhole AckOnlyAfterSync NoGarbage QueuedFramed
     OneFilePerBatch RollOnlyWhen MustRoll NameIs NewestFirst Retained OldestFirst NoPanic OwnSetOnly
     EnvOk ActiveIsLastGood
 ACTION_CONSTRAINT EmitReplay
